@@ -9,7 +9,7 @@ ALL = ["C%02d" % i for i in range(1, 20)]
 CHECKS = {
     "C12": ("exploration",
             "bounded exhaustive enumeration of unification problems (holes punched at every position and shift) against reference conversion and scope checks",
-            "Instances are all closed type-directed terms up to 5/6 nodes; patterns are the instance with a hole punched at every position with every shift 0..depth (both argument orders) and with two holes (distinct cells, the same cell twice) at pairs of positions; plus all ordered pairs of the 400/1200 smallest terms hole-free and holed (scope-escape and occurs-check configurations, the latter also chained through an earlier solution: (?0 ?1) against (a[?1] b[?0])), plus holed patterns under contexts with parameters and definitions, plus problems with holes on both sides. For every success of the real unify: following the solutions terminates, every solution is in scope where its hole was written (the home depth of a hole, depth minus shift, is the same at every copy of it), the filled-in terms are convertible in the reference, the context is untouched.",
+            "Instances are all closed type-directed terms up to 5/6 nodes; patterns are the instance with a hole punched at every position with every shift 0..depth (both argument orders) and with two holes (distinct cells, the same cell twice) at pairs of positions; plus all ordered pairs of the 400/1200 smallest terms hole-free and holed (scope-escape and occurs-check configurations, the latter also chained through an earlier solution: (?0 ?1) against (a[?1] b[?0])), plus holed patterns under contexts with parameters and definitions, plus problems with holes on both sides, plus one hole written at two and three binder depths under every context of up to three parameters / definitions against every choice of context variables. For every success of the real unify: following the solutions terminates, every solution is in scope where its hole was written (the home depth of a hole, depth minus shift, is the same at every copy of it), the filled-in terms are convertible in the reference, the context is untouched.",
             "Trusted: reference conversion (fuel-bounded). `false` on a holed pair is never judged (unification is not complete across reduction). F-HOLE-COPY is a known finding attributed through hook H2.",
             "DESIGN.md 6/C12"),
     "C18": ("exploration",
@@ -29,12 +29,12 @@ CHECKS = {
             "DESIGN.md 6/C01"),
     "C02": ("model_checking",
             "explicit-state exploration of the real evaluator with semantic invariance checked in every visited state against a big-step reference interpreter, plus an exhaustive operand sweep",
-            "All 9 operators and negation on all 361 ordered pairs of 19 boundary integers (beyond 2^64), recursion and mutual recursion for arguments 0..10, Ackermann for small arguments, evaluation-order probes, the terminating examples, every arithmetic / comparison sentence over literals up to 9/10 tokens (value of the tree grammar.y assigns), every type-directed program, the alias family and the type-valued groups: the real step relation is followed state by state; in every visited state the reference interpreter (environment-based, big-step, division specified by its identity) started from that state must give the same outcome as from the source program, and the final value must be the prescribed one.",
+            "All 9 operators and negation on all 361 ordered pairs of 19 boundary integers (beyond 2^64), recursion and mutual recursion for arguments 0..10, Ackermann for small arguments, evaluation-order probes, the terminating examples, groups with placeholder (`_`) definitions in every position, every arithmetic / comparison sentence over literals up to 9/10 tokens (value of the tree grammar.y assigns), every type-directed program, the alias family and the type-valued groups: the real step relation is followed state by state; in every visited state the reference interpreter (environment-based, big-step, division specified by its identity) started from that state must give the same outcome as from the source program, and the final value must be the prescribed one.",
             "Trusted: reference interpreter. Function-valued results are compared by kind only.",
             "DESIGN.md 6/C02"),
     "C03": ("exploration",
             "bounded exhaustive enumeration of well-typed programs, all their single-point perturbations and all small annotated terms, judged by an independent NbE type checker",
-            "For every program of the space that the real front end accepts (type-directed programs up to 6/7 nodes, their annotation variants, every single-point perturbation at every subterm position of the programs up to 5 nodes (quick) / of all of them (thorough), all closed annotated terms up to 6/7 nodes, the alias and nested-group families, and the type-pair family: ordered pairs of the smallest generated types and of all definition groups denoting types, of open types with a type-level function whose body is a group, and of terms under an opaque type constructor, meeting at an argument / the branches of a conditional / an annotated definition), the elaborated term must be closed and an independent checker for explicitly typed terms (typing rules + lazy normalisation-by-evaluation with fuel) must derive a type convertible with the reported one.",
+            "For every program of the space that the real front end accepts (type-directed programs up to 6/7 nodes, their annotation variants, every single-point perturbation at every subterm position of the programs up to 5 nodes (quick) / of all of them (thorough), all closed annotated terms up to 6/7 nodes, the alias and nested-group families, and the type-pair family: ordered pairs of the smallest generated types and of all definition groups denoting types, of open types with a type-level function whose body is a group, of conditionals stuck on a parameter, and of terms under an opaque type constructor, meeting at an argument / the branches of a conditional / an annotated definition; and the late-hole family: un-annotated parameters whose type is fixed under further binders and groups), the elaborated term must be closed and an independent checker for explicitly typed terms (typing rules + lazy normalisation-by-evaluation with fuel) must derive a type convertible with the reported one.",
             "Trusted: engine/src/model/typing.rs (the standard rules; gram's deliberate choices - type : type, `_` : type, implicit functions not applicable, annotation-blind conversion, no eta - are followed). Fuel exhaustion never yields a verdict. F-HOLE-COPY is a known finding with a defect-model classifier that only fires on programs with holes.",
             "DESIGN.md 6/C03"),
     "C04": ("model_checking",
@@ -54,7 +54,7 @@ CHECKS = {
             "DESIGN.md 6/C06"),
     "C13": ("model_checking",
             "stateless choice-tree exploration of hash-set iteration order through a hook, plus repeat-run differentials (in process with re-keyed hash containers, and on the real binary)",
-            "The only iteration over a hash container that reaches an output (parser::check_definition) is turned into a choice point by hook H1; a stateless DFS explorer replays permutation prefixes and enumerates every permutation at every choice point for every member of the definition-order family (all groups of up to 3 definitions - thorough: also 4 at top level with at most 48 leaves -, each a literal, a lambda or a non-value expression mentioning any subset of the group; at top level, nested in a called function, and nested with every definition also mentioning an enclosing parameter; at most 300/5000 leaves per program, capped trees are counted and the run is then not called exhaustive). All leaves of a program's choice tree must be byte-identical results. The ownership of the nondeterminism is cross-checked twice: the whole pipeline (tokenize, parse, type check, evaluate) is repeated 5/12 times in process on each of 37 k programs built to produce several diagnostics of every kind (lexical, name clashes with binders and within a group, unbound names, type faults, definition order) - std re-keys every new hash container, so a hash iteration anywhere that reaches the output shows as differing repetitions -, and by launching the real binary (hooks off, fresh hash seed per process) 6/24 times per file on the examples and on multi-diagnostic programs, for both `check` and `run`.",
+            "The only iteration over a hash container that reaches an output (parser::check_definition) is turned into a choice point by hook H1; a stateless DFS explorer replays permutation prefixes and enumerates every permutation at every choice point for every member of the definition-order family (all groups of up to 3 definitions - thorough: also 4 at top level with at most 48 leaves -, each a literal, a lambda or a non-value expression mentioning any subset of the group; at top level, nested in a called function, and nested with every definition also mentioning an enclosing parameter; at most 300/5000 leaves per program, capped trees are counted and the run is then not called exhaustive). All leaves of a program's choice tree must be byte-identical results. The ownership of the nondeterminism is cross-checked twice: the whole pipeline (tokenize, parse, type check, evaluate) is repeated 5/12 times in process on each of 37 k programs built to produce several diagnostics of every kind (lexical, name clashes with binders and within a group, unbound names, type faults, definition order; and accepted programs with dependent types, whose printed form depends on which variables occur where) - std re-keys every new hash container, so a hash iteration anywhere that reaches the output shows as differing repetitions -, and by launching the real binary (hooks off, fresh hash seed per process) 6/24 times per file on the examples and on multi-diagnostic programs, for both `check` and `run`.",
             "Trusted: hook H1 (identity on ordered containers, so a repaired tree has no choice points). The process-level part is a repeat-run differential (sampling of hash seeds), labelled as such; the deciding step is the exhaustive permutation tree.",
             "DESIGN.md 6/C13"),
     "C15": ("exploration",
@@ -69,7 +69,7 @@ CHECKS = {
             "DESIGN.md 6/C08"),
     "C11": ("exploration",
             "bounded exhaustive enumeration of de Bruijn terms and operation arguments against named substitution",
-            "Every hole-free term up to 5/6 nodes over every term former (groups of 1-3 definitions; indices < 4) and up to 7/8 nodes over a reduced former set is pushed through the real free_variables, signed_shift (4 cutoffs x 7 amounts, plus the algebraic laws) and open (4 indices x up to 40 inserted terms x all insertion shifts); every result is compared with a named reference semantics in which a shift is insertion/removal of names in a context and opening is substitution for a name.",
+            "Every hole-free term up to 5/6 nodes over every term former (groups of 1-3 definitions; indices < 4) and up to 7/8 nodes over a reduced former set is pushed through the real free_variables, signed_shift and unsigned_shift (4 cutoffs x 7 amounts, plus the algebraic laws) and open (4 indices x up to 40 inserted terms x all insertion shifts; plus every term of up to 3/4 nodes with a free variable inserted into every host of up to 3 nodes); every result is compared with a named reference semantics in which a shift is insertion/removal of names in a context and opening is substitution for a name.",
             "Trusted: engine/src/model/subst.rs (90 lines; only looks at free occurrences and translates them through name positions, so it shares no index arithmetic with gram).",
             "DESIGN.md 6/C11"),
     "C16": ("exploration",
@@ -79,17 +79,17 @@ CHECKS = {
             "DESIGN.md 6/C16"),
     "C14": ("exploration",
             "bounded exhaustive enumeration of strings, token sequences, edited sentences and byte files in crash-isolated workers",
-            "Every string up to the C09 bounds, every token sequence up to length 4/5 over all 29 token symbols and 5/6 over a 21-symbol class alphabet (including streams tokenize itself never emits), and every grammar.y sentence up to 5/7 tokens (and every sentence of six sub-grammar slices up to 9/11 tokens) with every single-token deletion, substitution and insertion is pushed through the real tokenize and parse in worker processes with the same 16 MiB stack as the shipped binary; a panic is caught and reported with its message, an abort or watchdog expiry is attributed to the case in flight. The real `gram check` binary is launched on every byte string of length <= 1, byte pairs, invalid-UTF-8 mutations of the examples, an empty / missing file and a directory, and must honour the exit-code / stdout / stderr contract and agree with the in-process pipeline.",
+            "Every string up to the C09 bounds, every token sequence up to length 4/5 over all 29 token symbols and 5/6 over a 21-symbol class alphabet (including streams tokenize itself never emits), and every grammar.y sentence up to 5/7 tokens (and every sentence of six sub-grammar slices up to 9/11 tokens) with every single-token deletion, substitution and insertion, and 624 programs that make the checker quote a compound operand, is pushed through the real tokenize and parse in worker processes with the same 16 MiB stack as the shipped binary; a panic is caught and reported with its message, an abort or watchdog expiry is attributed to the case in flight. The real `gram check` binary is launched on every byte string of length <= 1, byte pairs, invalid-UTF-8 mutations of the examples, an empty / missing file and a directory, and must honour the exit-code / stdout / stderr contract and agree with the in-process pipeline.",
             "Trusted: the worker supervision (signal handler dumps the case in flight; driver restarts). Token sequences that parse are also type checked in-process unless the reference finds a divergent piece in them (pre-screen); all of `gram check` is driven at process level.",
             "DESIGN.md 6/C14"),
     "C17": ("exploration",
             "systematic enumeration of input families on a ladder of sizes with a deterministic work counter",
-            "All 784 input families of period 1 and 2 over 28 syntactic wrappers (including chains that end in two parenthesised operands), each in 8 variants (well formed, truncated four ways, wrong token planted at three places), are run through the real tokenize+parse at n = 1, 2, 4, ... 512 (quick) / 8192 (thorough) nested repetitions on a 2 GiB stack; the work measure is the number of heap allocations (deterministic), backed by a wall-clock cap per rung. A second sweep runs 558 families of definition groups whose members mention each other by offset sets within {-2,-1,+1,+2,+3} (all lambdas / a non-value head then lambdas / all non-values; complete, truncated, wrong token) up to 256/2048 definitions under the same cap and envelope. A finite ladder gives evidence of the growth law, not a proof for all n; exponential or super-quadratic behaviour shows up within the first rungs.",
+            "All 961 input families of period 1 and 2 over 31 syntactic wrappers (including chains that end in two parenthesised operands, and groups of several members whose body or first definition is a parenthesised group), each in 8 variants (well formed, truncated four ways, wrong token planted at three places), are run through the real tokenize+parse at n = 1, 2, 4, ... 512 (quick) / 8192 (thorough) nested repetitions on a 2 GiB stack; the work measure is the number of heap allocations (deterministic), backed by a wall-clock cap per rung. A second sweep runs 558 families of definition groups whose members mention each other by offset sets within {-2,-1,+1,+2,+3} (all lambdas / a non-value head then lambdas / all non-values; complete, truncated, wrong token) up to 256/2048 definitions under the same cap and envelope. A finite ladder gives evidence of the growth law, not a proof for all n; exponential or super-quadratic behaviour shows up within the first rungs.",
             "Trusted: heap allocations as a proxy for parser work; thresholds (40 T^2 + 2e5 absolute, factor 6 per doubling for well-formed input) are 20x / 3x above the values measured on the unchanged tree.",
             "DESIGN.md 6/C17"),
     "C07": ("exploration",
             "bounded exhaustive enumeration of token sequences and grammar.y derivation trees against a grammar-derived oracle",
-            "Every token sequence up to length 4 (quick) / 5 (thorough) over all 28 token kinds plus the line-break terminator, and of length 5 / 6 over a 21-symbol class alphabet, is parsed by the real parser and its acceptance compared with membership in the set of sentences enumerated from /repo/grammar.y (read at run time); enumeration also certifies that no sentence has two derivations. Every derivation tree up to 6-7 tokens (full alphabet), 8-9 tokens (class alphabet) and 9-19 tokens (ten sub-grammar slices: application chains, sums, products, mixed arithmetic, all comparison operators over arithmetic, let groups, groups of bare names nested in definitions, binder forms, groups in binder domains, if-let) is parsed and the result compared node for node with the tree the derivation specifies (left-folded chains, parentheses honoured). Exhaustive within those bounds.",
+            "Every token sequence up to length 4 (quick) / 5 (thorough) over all 28 token kinds plus the line-break terminator, and of length 5 / 6 over a 21-symbol class alphabet, is parsed by the real parser and its acceptance compared with membership in the set of sentences enumerated from /repo/grammar.y (read at run time); enumeration also certifies that no sentence has two derivations; every single-token edit of every sentence of four grammar slices up to 9/11 tokens is accepted iff a span recogniser over grammar.y finds it to be a sentence. Every derivation tree up to 6-7 tokens (full alphabet), 8-9 tokens (class alphabet) and 9-19 tokens (ten sub-grammar slices: application chains, sums, products, mixed arithmetic, all comparison operators over arithmetic, let groups, groups of bare names nested in definitions, binder forms, groups in binder domains, if-let) is parsed and the result compared node for node with the tree the derivation specifies (left-folded chains, parentheses honoured). Exhaustive within those bounds.",
             "Trusted: the production-to-node mapping and re-association rule in engine/src/model/surface.rs (transcribed from grammar.y's header and the property), the derivation enumerator (cross-examined on every 97th sequence by an independent span recogniser over the same rules). Identifier spelling is abstracted (binders fresh, uses bound through parse's context parameter).",
             "DESIGN.md 6/C07"),
     "C10": ("model_checking",
